@@ -92,6 +92,36 @@ def run(ctx: Ctx) -> None:
         ok = not bad and norm(kwarg(cfgs[0], "client_side")) == "False"
     ctx.check("C05.R7", f"{M2}:H2Protocol.__init__", "H2Configuration(client_side=False, normalisation and validation left on)", ok, f"h2 configuration changes {bad}", cfgs[0] if cfgs else h2i)
 
+    # R9: who may mark a stream buffer complete
+    ctx.rule("C05.R9", "HTTP/2: a stream's send buffer is marked complete (which is what makes the send task emit END_STREAM) only by the end-of-body events; StreamBuffer.close() - which also marks it complete - is called only where the peer can no longer receive the stream (send error handler, RST_STREAM, connection closed)", floor=4)
+    allowed_close = {"H2Protocol._send_data": "except", "H2Protocol.handle": "isinstance(event, Closed)", "H2Protocol._handle_events": "isinstance(event, h2.events.StreamReset)"}
+    seen_sites = set()
+    for name, fn in cls_methods.items():
+        for c in calls(fn):
+            if not (isinstance(c.func, ast.Attribute) and c.func.attr in ("close", "set_complete")):
+                continue
+            recv = c.func.value
+            pv = provenance(recv, fn)
+            if "self.stream_buffers" not in pv.leaves and "self.stream_buffers" not in norm(recv):
+                continue
+            q = f"H2Protocol.{name}"
+            if c.func.attr == "set_complete":
+                ga = guard_atoms(c)
+                ok = name == "stream_send" and any(a[1] and ("EndBody" in a[0] or "EndData" in a[0]) for a in ga)
+                ctx.check("C05.R9", f"{M2}:{q}", "set_complete() only for EndBody/EndData", ok, "the buffer is marked complete outside the end-of-body arm: END_STREAM would be sent for a response the application never finished", c)
+                seen_sites.add("set_complete")
+                continue
+            want = allowed_close.get(q)
+            if want == "except":
+                ok = any(isinstance(a, ast.ExceptHandler) for a in ancestors(c))
+            elif want is not None:
+                ok = (want, True) in guard_atoms(c)
+            else:
+                ok = False
+            seen_sites.add(q)
+            ctx.check("C05.R9", f"{M2}:{q}", "StreamBuffer.close() only where the peer can no longer receive the stream", ok, f"{q} closes a stream's send buffer: close() marks it complete, so the send task finishes the stream with a clean END_STREAM - an application that died mid-response yields a response that looks complete", c)
+    ctx.check("C05.R9", f"{M2}:H2Protocol", "the known close()/set_complete() sites exist", {"set_complete", "H2Protocol._send_data", "H2Protocol.handle", "H2Protocol._handle_events"} <= seen_sites, f"sites found: {sorted(seen_sites)}", None)
+
     from . import c06
 
     c06.run(Alias(ctx, "C05.R3", "HTTP/1: after an aborted response the connection is closed instead of recycled - recycling requires both h11 sides DONE (C06.R1)", only={"C06.R1"}))
